@@ -146,7 +146,9 @@ func (r ValueRange) NumberLowerBound() (min Value, inclusive bool) {
 		}
 		return rfn.min, rfn.minInc
 	}
-	return NegativeInfinity, false
+	// With no lower bound at all even negative infinity is in range, and so
+	// this pseudo-bound is inclusive.
+	return NegativeInfinity, true
 }
 
 // NumberUpperBound returns information about the upper bound of the range of
@@ -171,7 +173,9 @@ func (r ValueRange) NumberUpperBound() (max Value, inclusive bool) {
 		}
 		return rfn.max, rfn.maxInc
 	}
-	return PositiveInfinity, false
+	// With no upper bound at all even positive infinity is in range, and so
+	// this pseudo-bound is inclusive.
+	return PositiveInfinity, true
 }
 
 // StringPrefix returns a string that is guaranteed to be the prefix of
